@@ -32,7 +32,7 @@ def run(ctx):
            {"pkg_mgr": M.delegation((3,), 5)}]
     # valid tuples x clock reads
     for ty, dl, ver, ts, ex in itertools.product(["root", "key_mgr", "pkg_mgr", ""], dls, [1, 5, True, 2.0, 2 ** 70],
-                                                 [None, M.TS, "2020-2-29T1:2:3Z"], [None, M.EX]):
+                                                 [None, M.TS, "2020-2-29T1:2:3Z"], [None, M.EX, M.TS, "1999-12-31T23:59:59Z"]):
         for n in (CLOCKS if (ts is None or ex is None) else CLOCKS[:1]):
             d = rng.choice([0, 0, 1, 2, 86400])
             cases.append({"w": wire.case("build_delegating_metadata", n, n + d, ty, dl, ver, ts, ex), "meta": {"tag": "valid", "fn": "bdm"}})
@@ -52,7 +52,7 @@ def run(ctx):
             cases.append({"w": wire.case("build_root_metadata", CLOCKS[0], CLOCKS[0], *m), "meta": {"tag": tag[0], "fn": "brm"}})
         except TypeError:
             pass
-    for ver, rk, rt, kk, kt, ts, ex in itertools.product([1, 7], [[], [k[0]], [k[0], k[1], k[2]]], [1, 2, 5], [[], [k[3]]], [1, 3], [None, M.TS], [None, M.EX]):
+    for ver, rk, rt, kk, kt, ts, ex in itertools.product([1, 7], [[], [k[0]], [k[0], k[1], k[2]]], [1, 2, 5], [[], [k[3]]], [1, 3], [None, M.TS, "2999-01-01T00:00:00Z"], [None, M.EX, M.TS]):
         for n in (CLOCKS[:4] if (ts is None or ex is None) else CLOCKS[:1]):
             cases.append({"w": wire.case("build_root_metadata", n + 1, n, ver, rk, rt, kk, kt, ts, ex), "meta": {"tag": "valid", "fn": "brm"}})
 
